@@ -50,17 +50,32 @@ fn main() {
             }
         }
         "world" => {
-            let mut e = world::World::new();
-            for line in stdin.lock().lines() {
-                let line = line.unwrap();
-                let words: Vec<&str> = line.split_whitespace().collect();
-                if words.is_empty() || words[0].starts_with('#') {
-                    continue;
-                }
-                let r = e.op(&words);
-                writeln!(out, "{}", r).unwrap();
-                out.flush().unwrap();
-            }
+            // every poll runs on a thread with the stack of a tokio worker / a default Rust thread
+            // (2 MiB), not on the 8 MiB main thread: recursion driven by peer input must show
+            drop(out);
+            let stack = std::env::var("VERIF_WORLD_STACK").ok().and_then(|v| v.parse().ok()).unwrap_or(2usize << 20);
+            let h = std::thread::Builder::new()
+                .stack_size(stack)
+                .spawn(move || {
+                    let stdin = std::io::stdin();
+                    let stdout = std::io::stdout();
+                    let mut out = std::io::BufWriter::new(stdout.lock());
+                    let mut e = world::World::new();
+                    for line in stdin.lock().lines() {
+                        let line = line.unwrap();
+                        let words: Vec<&str> = line.split_whitespace().collect();
+                        if words.is_empty() || words[0].starts_with('#') {
+                            continue;
+                        }
+                        let r = e.op(&words);
+                        writeln!(out, "{}", r).unwrap();
+                        out.flush().unwrap();
+                    }
+                    out.flush().unwrap();
+                })
+                .unwrap();
+            h.join().unwrap();
+            return;
         }
         "net" => {
             let mut e = net::Net::new();
